@@ -502,10 +502,12 @@ KNOWN_HANGS = ("C01:hang-inheritance-cycle", "C01:hang-concurrent-analysis-same-
 
 def hang_signature(s, obs, ids):
     missing = [i for i in ids if len(obs["responses"].get(str(i), [])) == 0]
-    if has_inheritance_cycle(s):
-        return "C01:hang-inheritance-cycle"
+    # the recorded schedule-dependent deadlock is recognised by its shape first: since workspaces with self parents and
+    # cycles are generated (they no longer hang: fixed under C14), a cycle somewhere in the workspace explains nothing by itself
     if concurrent_same_document(s, missing):
         return "C01:hang-concurrent-analysis-same-document"
+    if has_inheritance_cycle(s):
+        return "C01:hang-inheritance-cycle"
     return None
 
 
